@@ -234,3 +234,198 @@ Proof.
   destruct (lstep c l p) as [l' o] eqn:E. cbn [fst].
   pose proof (lstep_spec c l p l' o Hwf E) as S. destruct o; [destruct S as (-> & _); exact Hwf | exact S].
 Qed.
+
+(* ---- SubmodelElementList._check_constraints -------------------------------------------------- *)
+Lemma type_ok_spec : forall c e, type_ok c e = true <-> (ety e = tle c \/ In (ety e) (members c)).
+Proof.
+  intros c e. unfold type_ok. rewrite orb_true_iff, PeanoNat.Nat.eqb_eq, existsb_exists. split.
+  - intros [H|(x & Hx & E)]; [left; exact H|]. apply PeanoNat.Nat.eqb_eq in E. subst. right. exact Hx.
+  - intros [H|H]; [left; exact H|]. right. exists (ety e). split; [exact H | apply PeanoNat.Nat.eqb_refl].
+Qed.
+
+Lemma vt_ok_spec : forall c e, vt_ok c e = true <-> vtle c = Some (evt e).
+Proof.
+  intros c e. unfold vt_ok. destruct (vtle c) as [v|]; [|split; discriminate].
+  rewrite PeanoNat.Nat.eqb_eq. split; [intros ->; reflexivity | intro H; inversion H; reflexivity].
+Qed.
+
+Lemma loop114_none : forall s l,
+  first_some (fun x : elem => match esem x with
+                              | Some s' => when (negb (Nat.eqb s s')) (Some (EAASd 114))
+                              | None => None
+                              end) l = None <->
+  (forall y b, In y l -> esem y = Some b -> b = s).
+Proof.
+  intros s l. induction l as [|x r IH]; cbn [first_some].
+  - split; [intros _ y b [] | reflexivity].
+  - destruct (esem x) as [s'|] eqn:Ex.
+    + destruct (Nat.eqb s s') eqn:E; cbn [negb when orelse].
+      * apply PeanoNat.Nat.eqb_eq in E. subst s'. rewrite IH. split.
+        -- intros H y b [<-|Hy] Hb; [congruence | eapply H; eassumption].
+        -- intros H y b Hy Hb. apply (H y b); [right; exact Hy | exact Hb].
+      * apply PeanoNat.Nat.eqb_neq in E. split; [discriminate|]. intro H.
+        exfalso. apply E. symmetry. apply (H x s'); [left; reflexivity | exact Ex].
+    + cbn [orelse]. rewrite IH. split.
+      * intros H y b [<-|Hy] Hb; [congruence | eapply H; eassumption].
+      * intros H y b Hy Hb. apply (H y b); [right; exact Hy | exact Hb].
+Qed.
+
+Lemma loop114_some : forall s l e,
+  first_some (fun x : elem => match esem x with
+                              | Some s' => when (negb (Nat.eqb s s')) (Some (EAASd 114))
+                              | None => None
+                              end) l = Some e -> e = EAASd 114.
+Proof.
+  intros s l e. induction l as [|x r IH]; cbn [first_some]; [discriminate|].
+  destruct (esem x) as [s'|]; [destruct (Nat.eqb s s')|]; cbn [negb when orelse]; auto.
+  intro H. inversion H. reflexivity.
+Qed.
+
+Definition b107 (c : lcfg) (e : elem) : bool :=
+  match semle c, esem e with Some s, Some s' => negb (Nat.eqb s' s) | _, _ => false end.
+Definition l114 (c : lcfg) (e : elem) (l : list elem) : option err :=
+  match esem e, semle c with
+  | Some s, None =>
+      first_some (fun x => match esem x with
+                           | Some s' => when (negb (Nat.eqb s s')) (Some (EAASd 114))
+                           | None => None
+                           end) l
+  | _, _ => None
+  end.
+
+Lemma check_new_eq : forall c e l,
+  check_new c e l =
+  if ehasid e then Some (EAASd 120)
+  else if negb (type_ok c e) then Some (EAASd 108)
+  else if b107 c e then Some (EAASd 107)
+  else if prop_or_range c && negb (vt_ok c e) then Some (EAASd 109)
+  else l114 c e l.
+Proof.
+  intros c e l. unfold check_new, b107. fold (l114 c e l). cbv beta iota delta [seqs].
+  destruct (ehasid e); [reflexivity|]. destruct (type_ok c e); cbn [negb when orelse]; [|reflexivity].
+  destruct (semle c); destruct (esem e); try destruct (Nat.eqb _ _); cbn [negb when orelse]; try reflexivity;
+    destruct (prop_or_range c && negb (vt_ok c e)); cbn [when orelse]; try reflexivity;
+    destruct (l114 c e l); reflexivity.
+Qed.
+
+Lemma b107_false : forall c e, b107 c e = false <->
+  (forall s s', semle c = Some s -> esem e = Some s' -> s' = s).
+Proof.
+  intros c e. unfold b107. destruct (semle c) as [t|]; destruct (esem e) as [a|];
+    try (split; [intros _ s s' H1 H2; discriminate | reflexivity]).
+  rewrite negb_false_iff, PeanoNat.Nat.eqb_eq. split.
+  - intros -> s s' H1 H2. congruence.
+  - intro H. exact (H t a eq_refl eq_refl).
+Qed.
+
+Lemma b109_false : forall c e, prop_or_range c && negb (vt_ok c e) = false <->
+  (prop_or_range c = true -> vtle c = Some (evt e)).
+Proof.
+  intros c e. rewrite <- vt_ok_spec. destruct (prop_or_range c); destruct (vt_ok c e); cbn; split; intro H;
+    try reflexivity; try discriminate; try (intros _; reflexivity).
+  - discriminate (H eq_refl).
+  - intro H0. discriminate.
+  - intro H0. discriminate.
+Qed.
+
+Lemma l114_none : forall c e l, (forall x, In x l -> elem_ok c x) -> b107 c e = false ->
+  (l114 c e l = None <-> (forall y a b, In y l -> esem e = Some a -> esem y = Some b -> b = a)).
+Proof.
+  intros c e l Hok H7. apply b107_false in H7. unfold l114.
+  destruct (esem e) as [a|] eqn:Ea.
+  - destruct (semle c) as [t|] eqn:Es.
+    + split; [|reflexivity]. intros _ y a' b Hy Ha Hb. inversion Ha; subst a'.
+      rewrite (H7 t a eq_refl eq_refl). destruct (Hok y Hy) as (_ & Hy7 & _). exact (Hy7 t b eq_refl Hb).
+    + rewrite loop114_none. split.
+      * intros H y a' b Hy Ha Hb. inversion Ha; subst a'. exact (H y b Hy Hb).
+      * intros H y b Hy Hb. exact (H y a b Hy eq_refl Hb).
+  - split; [|reflexivity]. intros _ y a b _ Ha. discriminate.
+Qed.
+
+Lemma l114_some : forall c e l x, l114 c e l = Some x -> x = EAASd 114.
+Proof.
+  intros c e l x. unfold l114. destruct (esem e); [|discriminate]. destruct (semle c); [discriminate|].
+  apply loop114_some.
+Qed.
+
+Theorem check_new_accept : forall c e l, wf_list c l -> check_new c e l = None ->
+  ehasid e = false /\ forall l1 l2, l = l1 ++ l2 -> wf_list c (l1 ++ e :: l2).
+Proof.
+  intros c e l (Hok & Hpair) H. rewrite check_new_eq in H.
+  destruct (ehasid e) eqn:Eid; [discriminate|].
+  destruct (type_ok c e) eqn:Et; cbn [negb] in H; [|discriminate].
+  destruct (b107 c e) eqn:E7; [discriminate|].
+  destruct (prop_or_range c && negb (vt_ok c e)) eqn:E9; [discriminate|].
+  pose proof (proj1 (l114_none c e l Hok E7) H) as H114.
+  apply b107_false in E7. apply b109_false in E9.
+  split; [reflexivity|]. intros l1 l2 ->. split.
+  - intros x Hx. apply in_app_or in Hx. destruct Hx as [Hx|[<-|Hx]].
+    + apply Hok. apply in_or_app. left. exact Hx.
+    + split; [apply type_ok_spec; exact Et | split; [exact E7 | exact E9]].
+    + apply Hok. apply in_or_app. right. exact Hx.
+  - assert (Hin : forall z, In z (l1 ++ e :: l2) -> z = e \/ In z (l1 ++ l2)).
+    { intros z Hz. apply in_app_or in Hz. destruct Hz as [Hz|[Hz|Hz]]; [right | left; congruence | right];
+        apply in_or_app; tauto. }
+    intros x y a b Hx Hy Ha Hb. destruct (Hin x Hx) as [->|Hx']; destruct (Hin y Hy) as [->|Hy'].
+    + congruence.
+    + symmetry. exact (H114 y a b Hy' Ha Hb).
+    + exact (H114 x b a Hx' Hb Ha).
+    + exact (Hpair x y a b Hx' Hy' Ha Hb).
+Qed.
+
+(* a refusal names a constraint that the new element really violates, given a well-formed list *)
+Theorem check_new_reject : forall c e l x, wf_list c l -> check_new c e l = Some x ->
+  (x = EAASd 120 /\ ehasid e = true) \/
+  (ehasid e = false /\ ~ wf_list c (e :: l) /\
+   ((x = EAASd 108 /\ type_ok c e = false) \/
+    (x = EAASd 107 /\ exists s s', semle c = Some s /\ esem e = Some s' /\ s' <> s) \/
+    (x = EAASd 109 /\ prop_or_range c = true /\ vtle c <> Some (evt e)) \/
+    (x = EAASd 114 /\ exists y a b, In y l /\ esem e = Some a /\ esem y = Some b /\ b <> a))).
+Proof.
+  intros c e l x (Hok & Hpair) H. rewrite check_new_eq in H.
+  destruct (ehasid e) eqn:Eid; [left; inversion H; auto|].
+  right. split; [reflexivity|].
+  destruct (type_ok c e) eqn:Et; cbn [negb] in H.
+  2:{ inversion H. split; [|auto]. intros (Hok' & _). destruct (Hok' e (or_introl eq_refl)) as (Ht & _).
+      apply type_ok_spec in Ht. congruence. }
+  destruct (b107 c e) eqn:E7.
+  { inversion H. assert (Hn : ~ (forall s s', semle c = Some s -> esem e = Some s' -> s' = s)).
+    { intro Hc. apply b107_false in Hc. congruence. }
+    split.
+    - intros (Hok' & _). destruct (Hok' e (or_introl eq_refl)) as (_ & H7 & _). exact (Hn H7).
+    - right. left. split; [reflexivity|]. unfold b107 in E7.
+      destruct (semle c) as [t|]; [|discriminate]. destruct (esem e) as [a|]; [|discriminate].
+      exists t, a. repeat split. apply negb_true_iff in E7. apply PeanoNat.Nat.eqb_neq. exact E7. }
+  destruct (prop_or_range c && negb (vt_ok c e)) eqn:E9.
+  { inversion H. apply andb_true_iff in E9. destruct E9 as (Ep & Ev). apply negb_true_iff in Ev.
+    assert (Hn : vtle c <> Some (evt e)). { intro Hc. apply vt_ok_spec in Hc. congruence. }
+    split.
+    - intros (Hok' & _). destruct (Hok' e (or_introl eq_refl)) as (_ & _ & H9). exact (Hn (H9 Ep)).
+    - right. right. left. auto. }
+  rewrite (l114_some c e l x H). unfold l114 in H.
+  destruct (esem e) as [a|] eqn:Ea; [|discriminate]. destruct (semle c) eqn:Es; [discriminate|].
+  assert (Hex : exists y b, In y l /\ esem y = Some b /\ b <> a).
+  { clear -H. induction l as [|z r IH]; cbn [first_some] in H; [discriminate|].
+    destruct (esem z) as [b|] eqn:Ez.
+    - destruct (Nat.eqb a b) eqn:E; cbn [negb when orelse] in H.
+      + destruct (IH H) as (y & b' & Hy & Hb & Hne). exists y, b'. split; [right; exact Hy | auto].
+      + exists z, b. split; [left; reflexivity|]. split; [exact Ez|]. apply PeanoNat.Nat.eqb_neq in E. congruence.
+    - cbn [orelse] in H. destruct (IH H) as (y & b' & Hy & Hb & Hne). exists y, b'. split; [right; exact Hy | auto]. }
+  destruct Hex as (y & b & Hy & Hb & Hne). split.
+  - intros (_ & Hpair'). apply Hne. symmetry.
+    exact (Hpair' e y a b (or_introl eq_refl) (or_intror Hy) eq_refl Hb).
+  - right. right. right. split; [reflexivity|]. exists y, a, b. auto.
+Qed.
+
+Theorem sml_adds_wf : forall c es l, wf_list c l -> wf_list c (fst (sml_adds c l es)).
+Proof.
+  intros c es. induction es as [|e r IH]; intros l Hwf; [exact Hwf|]. cbn [sml_adds].
+  destruct (check_new c e l) eqn:E.
+  - specialize (IH l Hwf). destruct (sml_adds c l r). exact IH.
+  - destruct (check_new_accept c e l Hwf E) as (_ & Hins).
+    specialize (Hins l [] (eq_sym (app_nil_r l))). specialize (IH (l ++ [e]) Hins).
+    destruct (sml_adds c (l ++ [e]) r). exact IH.
+Qed.
+
+Lemma wf_list_nil : forall c, wf_list c [].
+Proof. intro c. split; [intros x [] | intros x y a b []]. Qed.
